@@ -101,7 +101,7 @@ def _obs_sig(sg, d, zhex):
     der = sg.as_der_encoded()
     raw = sg.bytes()
     return {'refused': False, 'r': '%x' % r, 's': '%x' % s, 'der': bytes(der).hex(), 'raw': bytes(raw).hex(),
-            'k': None if sg.k is None else '%x' % int(sg.k),
+            'k': None if sg.k is None else '%x' % int(sg.k), 'pub': ref.ser_point(_pub_point(d)).hex(),
             'valid': bool(c13_ec.ecdsa_verify(_pub_point(d), int(zhex, 16), r, s))}
 
 
@@ -172,7 +172,7 @@ def _do_tx(req):
 
 def _do_verify(c):
     """One verifier case: what the three entry points answer, what parse_bytes returns, and the oracle facts."""
-    from bitcoinlib.keys import verify, Signature, Key
+    from bitcoinlib.keys import verify, Signature, Key, HDKey
     sig = bytes.fromhex(c['sig'])
     z = bytes.fromhex(c['z'])
     pub = bytes.fromhex(c['pub'])
@@ -183,6 +183,16 @@ def _do_verify(c):
                 ok = verify(z, sig, pub)
             elif api == 'verify-hex':       # hex digest and signature, key object
                 ok = verify(z.hex(), sig.hex(), Key(pub))
+            elif api == 'verify-HDKey':
+                ok = verify(z, sig, HDKey(pub))
+            elif api == 'verify-Key-hex':
+                ok = verify(z, sig, Key(pub.hex()))
+            elif api == 'verify-pubhex':     # the key as hexadecimal text
+                ok = verify(z, sig, pub.hex())
+            elif api == 'parse-verify-pubhex':
+                ok = Signature.parse_bytes(sig).verify(z, pub.hex())
+            elif api == 'verify-point':      # the key as a coordinate pair (65-octet inputs only)
+                ok = verify(z, sig, Key((int.from_bytes(pub[1:33], 'big'), int.from_bytes(pub[33:], 'big'))))
             elif api == 'verify-hex-upper':
                 ok = verify(z.hex().upper(), sig.hex(), Key(pub))
             elif api == 'parse-verify':
@@ -222,7 +232,28 @@ def _do_verify(c):
     eqt = False
     if pt is not None and c.get('tail'):
         eqt = bool(c13_ec.ecdsa_verify(pt, int.from_bytes(z, 'big'), int(c['tr'] or '0', 16), int(c['ts'] or '0', 16)))
-    return {'obs': res, 'parsed': parsed, 'oncurve': pt is not None, 'eq': eq, 'eqt': eqt}
+    # public key: the curve equation on the integers as written (range, prefix and length are decided by the specification)
+    curveeq = False
+    if len(pub) == 33:
+        xx = int.from_bytes(pub[1:], 'big')
+        ysq = (pow(xx, 3, ref.P) + 7) % ref.P
+        curveeq = ysq == 0 or pow(ysq, (ref.P - 1) // 2, ref.P) == 1
+    elif len(pub) == 65:
+        xx, yy = int.from_bytes(pub[1:33], 'big'), int.from_bytes(pub[33:], 'big')
+        curveeq = (yy * yy - xx * xx * xx - 7) % ref.P == 0
+    # the triple under the reading "length decides, prefix ignored" (spec deviation public-key-prefix-length-mismatch-accepted)
+    eqalt = False
+    alts = []
+    if len(pub) == 65 and pub[0] in (2, 3):
+        alts = [ref.parse_point(b'\x04' + pub[1:])]
+    elif len(pub) == 33 and pub[0] == 4:
+        alts = [ref.parse_point(b'\x02' + pub[1:]), ref.parse_point(b'\x03' + pub[1:])]
+    if c['kind'] in ('raw', 'strict', 'lax'):
+        for ap in alts:
+            if ap is not None and c13_ec.ecdsa_verify(ap, int.from_bytes(z, 'big'), int(c['dr'] or '0', 16), int(c['ds'] or '0', 16)):
+                eqalt = True
+    return {'obs': res, 'parsed': parsed, 'havept': pt is not None, 'curveeq': bool(curveeq), 'eq': eq, 'eqt': eqt,
+            'eqalt': eqalt}
 
 
 def _do_env(b):
@@ -313,6 +344,8 @@ ADV_KEYS = [1, 2, 3, N - 1, N - 2, HALF, HALF + 1, 2 ** 255, 2 ** 128, (1 << 256
 ADV_DIGESTS = [0, 1, 2, N - 1, N, N + 1, 2 ** 256 - 1, 2 ** 255, 2 ** 255 - 1, 1 << 248, 0xff, HALF, 2 ** 256 - N, 2 ** 128]
 KEYFORMS = ['Key', 'HDKey', 'hex', 'Key-uncompressed', 'bytes', 'HDKey-chain']
 HASHTYPES = [1, 2, 3, 0x81, 0x82, 0x83, 0, 0x41, 0xff, 0x80, 0x7f]
+KEYFORM_OF = {'verify-hex': 'Key', 'verify-hex-upper': 'Key', 'verify-HDKey': 'HDKey', 'verify-Key-hex': 'Key',
+              'verify-pubhex': 'hex', 'parse-verify-pubhex': 'hex', 'verify-point': 'point'}
 HALF_INV = pow(2, -1, N)        # nonce 1/2: x(k*G) has 166 bits only (the shortest r known)
 
 
@@ -476,9 +509,26 @@ def key_variants(rng, Q):
     xo = (x + 1) % ref.P
     while ref.lift_x(xo, 0) is not None:
         xo = (xo + 1) % ref.P
-    return {'right': ref.ser_point(Q, ref.on_curve(Q)), 'uncompressed': ref.ser_point(Q, False), 'other': ref.ser_point(other),
-            'negated': ref.ser_point(ref.ec_neg(Q)), 'offcurve-xy': b'\x04' + x.to_bytes(32, 'big') + ((y + 1) % ref.P).to_bytes(32, 'big'),
-            'offcurve-x': b'\x02' + xo.to_bytes(32, 'big')}
+    b32 = lambda v: v.to_bytes(32, 'big')
+    comp, unc = ref.ser_point(Q, ref.on_curve(Q)), ref.ser_point(Q, False)
+    kv = {'right': comp, 'uncompressed': unc, 'other': ref.ser_point(other),
+          'negated': ref.ser_point(ref.ec_neg(Q)), 'offcurve-xy': b'\x04' + b32(x) + b32((y + 1) % ref.P),
+          'offcurve-x': b'\x02' + b32(xo),
+          # malformations of the octet string
+          'infinity-00': b'\x00', 'x-zero': b'\x02' + bytes(32), 'empty': b'',
+          'prefix04-compressed-length': b'\x04' + b32(x), 'prefix02-uncompressed-length': b'\x02' + unc[1:],
+          'prefix03-uncompressed-length': b'\x03' + unc[1:], 'prefix05': b'\x05' + b32(x),
+          'prefix00-compressed-length': b'\x00' + b32(x), 'hybrid': bytes([6 + (y & 1)]) + unc[1:],
+          'one-byte-short': comp[:-1], 'one-byte-long': comp + b'\x00',
+          'uncompressed-y-negated': b'\x04' + b32(x) + b32((-y) % ref.P),
+          'uncompressed-y-other-parity': b'\x04' + b32(x) + b32(y ^ 1),
+          'uncompressed-x-y-swapped': b'\x04' + b32(y) + b32(x)}
+    if x + ref.P < 1 << 256:        # a coordinate that is not a field element: c + p
+        kv['x-plus-p'] = comp[:1] + b32(x + ref.P)
+        kv['x-plus-p-uncompressed'] = b'\x04' + b32(x + ref.P) + b32(y)
+    if y + ref.P < 1 << 256:
+        kv['y-plus-p'] = b'\x04' + b32(x) + b32(y + ref.P)
+    return kv
 
 
 def gen_bases(rng, thorough):
@@ -496,6 +546,7 @@ def gen_bases(rng, thorough):
     n = 14 if thorough else 3
     for i in range(n):
         own(rand_scalar(rng), rng.getrandbits(256), rng.randrange(1, N), flip=(i % 3 == 2))
+        bases[-1]['allkeys'] = i == 0
     own(rand_scalar(rng), rng.randrange(2, 1 << 200), rng.randrange(1, N), name='own-small-digest')
     own(N - 1, N - 2, rng.randrange(1, N), name='own-near-n')
     # short r (nonce 1/2): DER + hash type is at most 64 bytes long
@@ -517,6 +568,25 @@ def gen_bases(rng, thorough):
         u1, u2 = z * w % N, r * w % N
         Q = ref.ec_mul(pow(u2, -1, N), ref.ec_add(R, ref.ec_neg(ref.ec_mul(u1))))
         bases.append({'name': 'forged-small', 'Q': Q, 'z': z, 'r': r, 's': s})
+    # public keys with a small coordinate c (so that c + p still fits the field width), with a triple valid under them
+    def forge(Q, name):
+        u1, u2 = rng.randrange(1, N), rng.randrange(1, N)
+        R = ref.ec_add(ref.ec_mul(u1), ref.ec_mul(u2, Q))
+        r = R[0] % N
+        s = r * pow(u2, -1, N) % N
+        bases.append({'name': name, 'Q': Q, 'z': u1 * s % N, 'r': r, 's': s, 'lite': True, 'allkeys': True})
+    x = rng.randrange(1, 1 << 31)
+    while ref.lift_x(x, 0) is None:
+        x += 1
+    forge(ref.lift_x(x, rng.randrange(2)), 'key-small-x')
+    y = rng.randrange(1, 1 << 31)
+    while True:     # p = 7 mod 9: a cube root of a cubic residue a is a^((p+2)/9)
+        a = (y * y - 7) % ref.P
+        x = pow(a, (ref.P + 2) // 9, ref.P)
+        if pow(x, 3, ref.P) == a:
+            break
+        y += 1
+    forge((x, y), 'key-small-y')
     # invalid-curve: a public key that is NOT on the curve, with (z, r, s) that satisfy the verification equation when the
     # group formulas are applied to it regardless (they do not involve the curve constant b)
     # (two orders of evaluation: separate multiplications, and the simultaneous "Shamir" multiplication)
@@ -621,7 +691,7 @@ def run(replay=None):
                 b['r'].to_bytes(32, 'big') + b['s'].to_bytes(32, 'big')
             muts.append((b, mutate(rng, enc)))
         grecs = [{'k': 'vgen', 'r': bl(b['r']), 's': bl(b['s']), 'z': list(b['z'].to_bytes(32, 'big')),
-                  'ht': rng.choice([1, 1, 0x83, 2]), 'lite': bool(b.get('lite'))} for b in bases]
+                  'ht': rng.choice([1, 1, 0x83, 2]), 'lite': bool(b.get('lite')), 'allkeys': bool(b.get('allkeys'))} for b in bases]
         grecs += [{'k': 'denote', 'sig': list(m)} for _, m in muts]
         # the environment of a sign call (EcdsaEnv): TLC enumerates the behaviours
         grecs += [{'k': 'envgen', 'plans': ['random', 'mixed'], 'maxlen': 5 if thorough else 4},
@@ -646,9 +716,15 @@ def run(replay=None):
             kv = key_variants(rng, b['Q'])
             for c in g['cases']:
                 for kc in c['keys']:
+                    if kc not in kv:        # class not applicable to this point (c + p needs a small coordinate)
+                        continue
                     apis = ['verify', 'verify-hex', 'parse-verify'] + (['rs-verify'] if c['enc'] == 'raw64' else [])
                     if c['rc'] == 'valid' and c['sc'] in ('valid', 'twin'):
                         apis += ['reuse-verify', 'reuse-verify-hex', 'verify-hex-upper', 'parse-verify-hex']
+                    if len(c['keys']) > 1:  # the key classes: every form in which the API takes a public key
+                        apis += ['verify-HDKey', 'verify-Key-hex', 'verify-pubhex', 'parse-verify-pubhex']
+                        if len(kv[kc]) == 65 and kv[kc][0] == 4:
+                            apis.append('verify-point')
                     vcases.append({'sig': bytes(c['sig']).hex(), 'z': bytes(c['z']).hex(), 'pub': kv[kc].hex(), 'apis': apis,
                                    'kind': c['kind'], 'dr': bytes(c['dr']).hex(), 'ds': bytes(c['ds']).hex(),
                                    'tail': c['tail'], 'tr': bytes(c['tr']).hex(), 'ts': bytes(c['ts']).hex(),
@@ -712,7 +788,8 @@ def run(replay=None):
     vrecs, vidx = [], []
     for c, res in zip(vcases, ver_res):
         for api in c['apis']:
-            vrecs.append({'k': 'vcase', 'sig': hb(c['sig']), 'oncurve': res['oncurve'], 'eq': res['eq'],
+            vrecs.append({'k': 'vcase', 'sig': hb(c['sig']), 'pub': hb(c['pub']), 'curveeq': res['curveeq'],
+                          'havept': res['havept'], 'keyform': KEYFORM_OF.get(api, 'bytes'), 'eqalt': res['eqalt'], 'eq': res['eq'],
                           'fr': hb(c['dr']), 'fs': hb(c['ds']), 'eqt': res['eqt'], 'tr': hb(c.get('tr', '')),
                           'ts': hb(c.get('ts', '')), 'obs': res['obs'][api]})
             vidx.append((c, api, res))
@@ -725,7 +802,8 @@ def run(replay=None):
                  'cls': ['signed:' + traces[ti][0], 'valid', 'valid', req.get('zc', 'right') + '/' + req['zform'], 'der', 'right']}
             rr, ss = o['r'].zfill(len(o['r']) + len(o['r']) % 2), o['s'].zfill(len(o['s']) + len(o['s']) % 2)
             for api, obs in sorted(o['selfv'].items()):
-                vrecs.append({'k': 'vcase', 'sig': hb(o['der']), 'oncurve': True, 'eq': True, 'fr': hb(rr), 'fs': hb(ss),
+                vrecs.append({'k': 'vcase', 'sig': hb(o['der']), 'pub': hb(o['pub']), 'curveeq': True, 'havept': True,
+                              'keyform': 'Key', 'eqalt': False, 'eq': True, 'fr': hb(rr), 'fs': hb(ss),
                               'eqt': False, 'tr': [], 'ts': [], 'obs': obs})
                 vidx.append((c, api, {'obs': o['selfv']}))
     # behaviours of the environment: the recorded r, s of every sign call
